@@ -3,13 +3,13 @@ from rules import misc as M
 
 
 def run(ctx):
-    M.ord7_catalogue_rows_in_same_segment(ctx)
-    M.tbl6_ingestion_siblings(ctx)
-    M.who3_column_names_writers(ctx)
-    M.ord12_names_loaded_before_ingest(ctx)
-    M.flw21_catalogue_sees_every_key(ctx)
-    M.lit2_catalogue_literals(ctx)
-    M.flw2_compaction_covers_names(ctx)
+    ctx.run(M.ord7_catalogue_rows_in_same_segment)
+    ctx.run(M.tbl6_ingestion_siblings)
+    ctx.run(M.who3_column_names_writers)
+    ctx.run(M.ord12_names_loaded_before_ingest)
+    ctx.run(M.flw21_catalogue_sees_every_key)
+    ctx.run(M.lit2_catalogue_literals)
+    ctx.run(M.flw2_compaction_covers_names)
     return ctx.finish(
         'Static rules: catalogue rows are added to the event buffer before it is cloned for the '
         'write-ahead segment; the three ingestion siblings record every incoming name under both '
